@@ -1,11 +1,12 @@
 #!/bin/sh
 # tools/try_benign.sh <dir-with-patch.diff> <check ids...> : apply a behaviour-preserving change, every check must stay silent (exit 0)
 D=$(cd "$1" && pwd); shift
-cd /repo || exit 2
+R=${MSMART_REPO:-/repo}
+cd $R || exit 2
 [ -n "$(git status --porcelain --untracked-files=no)" ] && { echo "/repo not clean"; exit 2; }
 git apply --check "$D/patch.diff" || { echo "PATCH DOES NOT APPLY"; exit 3; }
 git apply "$D/patch.diff"
-trap 'git -C /repo checkout -- .' EXIT
+trap 'git -C $R checkout -- .' EXIT
 echo "repo tests: $(/venv/bin/python -m pytest -q -p no:cacheprovider --timeout=900 msmart 2>&1 | tail -1)"
 cd /verif
 for c in "$@"; do
